@@ -71,7 +71,7 @@ def run(ctx):
         # statistics op recorded in the same arm
         stat = None
         for bb, t in cfn.calls():
-            if t["fn"].get("trait") == "roughenough::stats::ServerStats" and cfn.dominates(r["bb"], bb):
+            if t["fn"].get("trait") == "roughenough::stats::ServerStats" and (cfn.dominates(r["bb"], bb) or cfn.dominates(bb, r["bb"])):
                 rels = flow.rel_facts_at(flow.must_facts(cfn, cev), bb)
                 if sm.version_fact(P, rels) == v:
                     stat = t["fn"].get("trait_method")
